@@ -718,11 +718,65 @@ def _layouts_used(spec):
     return out
 
 
+def history_region_value(rng):
+    """process-wide state keyed by layout VALUE across DFXP documents: document A (a DFXP writer) has captions / nodes with
+    a layout L for which the writer creates a region (r0, r1, ..; L is not the default region); later a FRESH DFXPWriter
+    (write_inline_positioning off) writes B whose SET-LEVEL layout_info == L while B's languages / captions / nodes carry NO
+    layout of their own (its <div>/<p> fall back to the default region).  B is compared with its pristine twin.
+    L is chosen invariant under relativize + fit_to_screen (or those are switched off) so that the value A's writer met is
+    the value B carries."""
+    lname = rng.choice(["rel_fit", "rel_fit", "pad", "rel_noext", "rel_over", "align"])
+    others = [x for x in ["rel_fit", "pad", "rel_noext", "rel_over", None, None] if x != lname]
+    langs = rng.sample(LANGS, rng.choice([1, 1, 2]))
+
+    def caps(with_layout):
+        out = []
+        for (s_, e_) in spans(rng, rng.randint(1, 3)):
+            lay = None
+            nodes = [["t", words(rng, pool=PLAIN), None]]
+            if with_layout:
+                q = rng.random()
+                if q < 0.5:
+                    lay = lname
+                elif q < 0.75:
+                    nodes = [["t", words(rng, pool=PLAIN), lname]]
+                else:
+                    lay = rng.choice(others)
+            out.append({"start": s_ * 1000, "end": e_ * 1000, "style": None, "layout": lay, "nodes": nodes})
+        if with_layout and not any(c["layout"] == lname or c["nodes"][0][2] == lname for c in out):
+            out[-1]["layout"] = lname
+        if with_layout and rng.random() < 0.5:
+            # L is not the first region: another positioned caption comes first
+            out.insert(0, {"start": 0, "end": 400000, "style": None, "layout": rng.choice(["rel_over", "rel_noext", "pad"]),
+                           "nodes": [["t", "first", None]]})
+        return out
+    a = {"layout": rng.choice([None, None, lname]), "styles": rng.choice([None, [["s1", {"color": "red"}]]]),
+         "langs": [{"lang": lg, "layout": rng.choice([None, None, lname]), "caps": caps(True)} for lg in langs]}
+    b = {"layout": lname, "styles": rng.choice([None, [["s1", {"color": "red"}]]]),
+         "langs": [{"lang": lg, "layout": None, "caps": caps(False)} for lg in langs]}
+    wo = rng.choice([{}, {}, {"fit_to_screen": False}, {"relativize": False}, {"relativize": False, "fit_to_screen": False},
+                     {"video_width": 640, "video_height": 360}])
+    ka = rng.choice(["dfxp", "dfxp", "dfxp", "single"])
+    woa = dict(wo)
+    if ka == "single":
+        woa["default_positioning"] = lname if lname != "rel_over" else "rel_fit"
+    ops = [{"op": "build", "spec": a}, {"op": "build", "spec": b},
+           {"op": "write", "kind": ka, "wopts": woa, "kw": {}, "w": 0, "set": 0}]
+    if rng.random() < 0.25:
+        ops.append({"op": "write", "kind": "dfxp", "wopts": dict(wo), "kw": {}, "w": 1, "set": 0})
+    ops.append({"op": "write", "kind": "dfxp", "wopts": dict(wo), "kw": {}, "w": 2, "set": 1})       # fresh object, B
+    if rng.random() < 0.3:
+        ops.append({"op": "write", "kind": "dfxp", "wopts": dict(wo), "kw": {}, "w": 3, "set": 1})
+    return ops
+
+
 def history_process_state(rng):
     """document A is written (any writer object), then a FRESH writer object of the same class writes B whose SET-LEVEL
     layout_info equals a caption / language / node layout of A (and which shares style names and language codes with A);
     B's bytes are compared with B written alone in a pristine process (the pristine twin C09.run makes for that write).
     DFXP writers (with and without inline positioning) most often; every writer class."""
+    if rng.random() < 0.55:
+        return history_region_value(rng)
     a, b = gen_vocab_pair(rng)
     if rng.random() < 0.5:
         a = gen_spec(rng, "rich")
@@ -752,7 +806,7 @@ def history_after_raise(rng):
     a later caption is positioned in px (RelativizationError without video size: DFXP / SAMI / Single) or has more rows than
     the SCC writer can address (IndexError) or a time nobody can print; the same object then writes Y, a fresh object writes
     Y: byte-identical."""
-    kind = rng.choice(["sami", "sami", "dfxp", "single", "scc", "scc", "legacy", "vtt", "srt"])
+    kind = rng.choice(["sami", "sami", "dfxp", "single", "scc", "scc", "scc", "legacy", "vtt", "srt"])
     lang = rng.choice(LANGS)
     first = {"start": 1000000, "end": 2000000, "style": rng.choice([None, {"italics": True}]), "layout": None,
              "nodes": [["s", True, {"italics": True}, None], ["t", words(rng, pool=PLAIN), None]]}
@@ -863,13 +917,13 @@ def history_c09(rng):
         for k, wo in enumerate(variants[:rng.randint(2, 4)]):
             ops.append({"op": "write", "kind": kind, "wopts": wo, "kw": {}, "w": k, "set": 0})
         return ops
-    if shape < 0.74:
+    if shape < 0.73:
         return history_vocab(rng)
-    if shape < 0.785:
+    if shape < 0.79:
         return history_process_state(rng)
-    if shape < 0.83:
+    if shape < 0.845:
         return history_after_raise(rng)
-    if shape < 0.87:
+    if shape < 0.885:
         return history_inline(rng)
     nsets = rng.choice([1, 2, 2, 3])
     for k in range(nsets):
